@@ -1,6 +1,6 @@
 """Facts for Gen/Numeric.lean (C08): aligned marker constant, summands of the aligned body's base offset,
 format guards of the bulk decoders and routes, and which bulk reader the decoders call."""
-import re
+import re, os
 from rustlex import *
 
 GEN_FILE = "Numeric.lean"
@@ -30,8 +30,67 @@ def _reader_kind(call, helpers):
     return "empty_ok"
 
 
+BEVE_DEFAULT = {"typeTypedArray": 4, "typeGenericArray": 5, "typeExtension": 6, "extComplex": 3, "arrayFloat": 0,
+                "arraySigned": 1, "arrayUnsigned": 2, "arrayBoolOrString": 3, "alignedDiscriminator": 2,
+                "sizeThresholds": [[6, 14, 30], [6, 14, 30], [6, 14, 30]],
+                "impls": [[1, 0, 1], [1, 1, 2], [1, 2, 4], [1, 3, 8], [1, 4, 16], [2, 0, 1], [2, 1, 2], [2, 2, 4], [2, 3, 8], [2, 4, 16],
+                          [0, 2, 4], [0, 3, 8], [0, 0, 2], [0, 1, 2]]}
+SIZES = {"i8": 1, "u8": 1, "i16": 2, "u16": 2, "f16": 2, "bf16": 2, "i32": 4, "u32": 4, "f32": 4, "i64": 8, "u64": 8, "f64": 8, "i128": 16, "u128": 16}
+
+
+def beve_facts():
+    """Layout constants from the beve crate source named by /repo's Cargo.lock (recognised forms only)."""
+    import glob
+    lock = read("Cargo.lock")
+    m = re.search(r'name = "beve"\nversion = "([^"]+)"', lock)
+    if not m:
+        raise ExtractError("beve not in Cargo.lock")
+    dirs = sorted(glob.glob(os.path.expanduser(f"~/.cargo/registry/src/*/beve-{m.group(1)}/src")))
+    if not dirs:
+        raise ExtractError(f"beve-{m.group(1)} source not in the cargo registry")
+    def src(name):
+        with open(os.path.join(dirs[0], name), encoding="utf-8") as f:
+            return _drop_test_mods(strip(f.read()))
+    hdr, ali, siz, fast = src("header.rs"), src("aligned.rs"), src("size.rs"), src("fast.rs")
+    def const(text, name):
+        mm = re.search(r"const " + name + r"\s*:\s*u8\s*=\s*(\d+)\s*;", text)
+        if not mm: raise ExtractError(f"beve const {name}")
+        return int(mm.group(1))
+    b = {"typeTypedArray": const(hdr, "TYPE_TYPED_ARRAY"), "typeGenericArray": const(hdr, "TYPE_GENERIC_ARRAY"),
+         "typeExtension": const(hdr, "TYPE_EXTENSION"), "extComplex": const(hdr, "EXT_COMPLEX"),
+         "arrayFloat": const(hdr, "ARRAY_FLOAT"), "arraySigned": const(hdr, "ARRAY_SIGNED"),
+         "arrayUnsigned": const(hdr, "ARRAY_UNSIGNED"), "arrayBoolOrString": const(hdr, "ARRAY_BOOL_OR_STRING"),
+         "alignedDiscriminator": const(ali, "ALIGNED_DISCRIMINATOR")}
+    mh = " ".join(fn_body(hdr, "make_header").split())
+    if mh != "(byte_count_code << 5) | ((subtype & 0b11) << 3) | (ty & 0b111)":
+        raise ExtractError("beve make_header: form not recognised")
+    pf = " ".join(fn_body(ali, "padding_for").split())
+    if pf != "let offset_after_padding_length = padding_length_offset + 1; (align - (offset_after_padding_length % align)) % align":
+        raise ExtractError("beve padding_for: form not recognised")
+    am = " ".join(fn_body(ali, "aligned_marker_header").split())
+    if am != "make_header( TYPE_TYPED_ARRAY, ARRAY_BOOL_OR_STRING, ALIGNED_DISCRIMINATOR, )":
+        raise ExtractError("beve aligned_marker_header: form not recognised")
+    b["sizeThresholds"] = [[int(x) for x in re.findall(r"n < \(1 << (\d+)\)", fn_body(siz, fn))] for fn in ("write_size", "size_encoded_len", "encode_size_to_array")]
+    cls = {"ARRAY_FLOAT": b["arrayFloat"], "ARRAY_SIGNED": b["arraySigned"], "ARRAY_UNSIGNED": b["arrayUnsigned"]}
+    impls = []
+    for t, c, k in re.findall(r"impl_beve_typed_int!\((\w+), (\w+), (\d+)\);", fast):
+        impls.append([cls[c], int(k), SIZES[t]])
+    for t, c, k in re.findall(r"impl BeveTypedSlice for (\w+) \{\s*const CLASS: u8 = (\w+);\s*const BYTE_CODE: u8 = (\d+);", fast):
+        impls.append([cls[c], int(k), SIZES[t]])
+    if not impls:
+        raise ExtractError("beve BeveTypedSlice impls not found")
+    b["impls"] = impls
+    return b
+
+
 def extract():
     facts = {}
+    try:
+        facts["beve"] = beve_facts()
+        facts["beveSource"] = "read"
+    except Exception as ex:  # fail soft: the dependency's layout is then tied by the correspondence alone
+        facts["beve"] = dict(BEVE_DEFAULT)
+        facts["beveSource"] = f"unavailable ({type(ex).__name__}: {ex}); committed constants used"
     msg = _drop_test_mods(strip(read("src/message.rs")))
     srv = _drop_test_mods(strip(read("src/server.rs")))
     consts = strip(read("src/constants.rs"))
@@ -132,12 +191,51 @@ def extract():
     if "beve::write_aligned_typed_slice_at(&mut body, slice, base_offset);" not in flat:
         raise ExtractError("body_aligned_typed_slice: writer call not recognised")
     facts["baseTerms"] = terms
+
+    # ---- response side
+    rb = [" ".join(fn_body(msg, fn).split()) for fn in ("create_typed_slice_response_unstamped", "create_typed_slice_response_unstamped_view")]
+    if all(re.fullmatch(r"response_header_builder\((request|view)\.header\.id, (request|view)\.header\.query_format\) \.body_typed_slice\(result\) \.build\(\)", b) for b in rb):
+        facts["respBulk"] = True
+    elif any("body_typed_slice" not in b for b in rb):
+        facts["respBulk"] = False
+    else:
+        raise ExtractError("create_typed_slice_response_unstamped: form not recognised")
+
+    # ---- client entry points (pessimistic on anything that is not the recognised order / helper)
+    for key, file, imp_re in (("syncClient", "src/client.rs", r"impl Client\s*\{"), ("asyncClient", "src/async_client.rs", r"impl AsyncClient\s*\{")):
+        src = _drop_test_mods(strip(read(file)))
+        imp = impl_block(src, imp_re)
+        cb = " ".join(fn_body(imp, "call_with_body_and_timeout").split())
+        iq, ib = cb.find(".query_str("), cb.find("body_fn(")
+        if iq < 0 or ib < 0:
+            raise ExtractError(f"{file}: call_with_body_and_timeout: builder steps not found")
+        # the query is on the builder when the body closure runs only if it is set textually first and
+        # the closure is applied to that builder
+        qfirst = iq < ib and re.search(r"body_fn\(builder\)", cb) is not None
+        helper_form = {}
+        for h in ("call_typed_slice_with_optional_timeout", "call_typed_slice_aligned_with_optional_timeout"):
+            hb = " ".join(fn_body(imp, h).split())
+            m = re.search(r"\|builder\| Ok\(builder\.(body_typed_slice|body_aligned_typed_slice)\(body\)\)", hb)
+            if not m:
+                raise ExtractError(f"{file}: {h}: closure not recognised")
+            helper_form[h] = "aligned" if m.group(1) == "body_aligned_typed_slice" else "regular"
+        def entry(fn):
+            eb = " ".join(fn_body(imp, fn).split())
+            m = re.search(r"self\s*\.\s*(call_typed_slice(?:_aligned)?_with_optional_timeout)\(", eb)
+            if not m:
+                raise ExtractError(f"{file}: {fn}: helper call not recognised")
+            return helper_form[m.group(1)]
+        facts[key] = {"queryFirst": qfirst,
+                      "bulkPlain": entry("call_typed_slice"), "bulkTimeout": entry("call_typed_slice_with_timeout"),
+                      "alignedPlain": entry("call_typed_slice_aligned"), "alignedTimeout": entry("call_typed_slice_aligned_with_timeout")}
     return facts
 
 
 def render(f):
     b = lambda x: "true" if x else "false"
     term = lambda t: f".const {t}" if isinstance(t, int) else f".{t}"
+    client = lambda c: ("{ queryFirst := %s, bulkPlain := .%s, bulkTimeout := .%s, alignedPlain := .%s, alignedTimeout := .%s }"
+                        % (b(c["queryFirst"]), c["bulkPlain"], c["bulkTimeout"], c["alignedPlain"], c["alignedTimeout"]))
     L = ["import RepeVerif.Model.Beve",
          "/-! GENERATED by /verif/extract/numeric.py from /repo (src/message.rs, src/server.rs, src/constants.rs). -/",
          "namespace Repe.Gen",
@@ -148,7 +246,14 @@ def render(f):
          f"    typedGuard := {b(f['typedGuard'])},",
          f"    complexGuard := {b(f['complexGuard'])},",
          f"    serverGuards := {b(f['serverGuards'])},",
-         f"    emptyGeneric := {b(f['emptyGeneric'])} }}",
+         f"    emptyGeneric := {b(f['emptyGeneric'])},",
+         f"    respBulk := {b(f['respBulk'])},",
+         f"    syncClient := {client(f['syncClient'])},",
+         f"    asyncClient := {client(f['asyncClient'])} }}",
+         "def beveFacts : BeveFacts :=",
+         "  { " + ", ".join(f"{k} := {f['beve'][k]}" for k in ("typeTypedArray", "typeGenericArray", "typeExtension", "extComplex", "arrayFloat", "arraySigned", "arrayUnsigned", "arrayBoolOrString", "alignedDiscriminator")) + ",",
+         "    sizeThresholds := " + str(f["beve"]["sizeThresholds"]).replace(" ", "") + ",",
+         "    impls := [" + ", ".join("(%d, %d, %d)" % tuple(i) for i in f["beve"]["impls"]) + "] }",
          "end Repe.Gen"]
     return "\n".join(L) + "\n"
 
